@@ -1,5 +1,5 @@
 """C04  max_time, min_time and skip_ext_time bound sampling as documented."""
-from lib.facts import direct_place, const_int, origins, place_fields, norm
+from lib.facts import direct_place, const_int, origins, place_fields, norm, nophi
 from lib import tables
 from .sampling import Sampling
 
@@ -222,7 +222,7 @@ def r04_3(ctx, S, prog, crate):
                 c = ds[0]
                 a0 = b.prov.op_src(c.args[0])
                 a1 = b.prov.op_src(c.args[1])
-                ctx.check(any(z.kind == "call" and z.a == "std::iter::Iterator::max" for z in a0) and not any(z.kind == "call" and z.a.endswith(("::min", "::last", "::first")) for z in a0),
+                ctx.check(any(z.kind == "call" and z.a == "std::iter::Iterator::max" for z in a0) and nophi(a0) and not any(z.kind == "call" and z.a.endswith(("::min", "::last", "::first")) for z in a0),
                           "R04.3", [b.path, "latest-end"], "elapsed is not measured up to the maximum end timestamp (%s)" % sorted(z.a for z in a0 if z.kind == "call"), c.line())
                 ctx.check(any(z.kind == "call" and z.b == st.bb for z in a1), "R04.3", [b.path, "since-initial_start"], "elapsed is not measured from initial_start", c.line())
                 # the mapping closure projects `.end`
@@ -250,7 +250,7 @@ def r04_3(ctx, S, prog, crate):
                 if ok2:
                     other = [a for a in dd[1].args if const_int(a) != 1000][0]
                     srcs2 = b.prov.op_src(other)
-                    ctx.check(any(z.kind == "call" and z.a == "std::iter::Iterator::max_by_key" for z in srcs2) and
+                    ctx.check(any(z.kind == "call" and z.a == "std::iter::Iterator::max_by_key" for z in srcs2) and nophi(srcs2) and
                               any(z.kind == "call" and z.a == "stats::sample::RawSample::duration" for z in srcs2), "R04.3", [b.path, "slowest-thread"],
                               "progress is not the slowest thread's timed section (%s)" % sorted(z.a for z in srcs2 if z.kind == "call"), c.line())
     # RawSample::duration = end.duration_since(start, timer)
